@@ -124,6 +124,20 @@ CHECKS = {
     ),
 }
 
+CHECKS["C19"] = dict(
+    cat="exploration",
+    technique="runtime monitoring: real loopback datagrams into a listener registered through the public API; callback and loop-exception events judged against what was sent",
+    text="Datagram sequences mixing valid SNMPv2c traps (payload bindings of every type, built by the independent encoder), foreign-community traps, truncated traps and garbage, from four 127.0.0.x sources, one at a time; every valid matching trap must reach the callback exactly once, in order, with Trap.source = sender address and the bindings sent (TrapInfo view pythonic); invalid datagrams never delivered and never stop later deliveries. A missing delivery is replayed once before it becomes a verdict.",
+    ref="DESIGN.md 4/C19",
+    note="Trusted base: vf/ber.py encoder (self-checked), the kernel's loopback UDP (one small datagram in flight at a time), CPython asyncio. Verdict = held on the executions observed.",
+)
+CHECKS["C20"] = dict(
+    cat="fault_enumeration",
+    technique="runtime monitoring: logical step monitor (sys.monitoring) + tracemalloc around one public call per mutated datagram, with a follow-up valid request as usability monitor",
+    text="Per seed (valid v1/v2c/v3 responses at every level, reports, discovery replies, a trap) every TLV-header octet substitution by 11 values, every truncation and every single-bit flip (quick: every 3rd bit, round-robin over the seeds under a time cap; thorough: everything) plus nesting bombs/random strings up to the UDP maximum, for v3 both before authentication and after it (re-signed / re-encrypted with the real keys). Verdict on logical counts against fixed budgets (steps <= 40000+100*len, heap <= 12 MiB+400*len) that valid small and large traffic is also held to; the same client must serve a valid request afterwards. The x690 indefinite-length spin is a known finding classified by an observed non-advancing TLV slice.",
+    ref="DESIGN.md 4/C20",
+)
+
 NOT_YET = {}
 ALL = ["C%02d" % i for i in range(1, 21)]
 
